@@ -330,6 +330,8 @@ def gen_ops(rng, src, faults=False):
             ops.append(["reservoir", {"n_interactions": rng.choice([1, 4, 20]), "seeds": rng.randrange(1, 9), "strict": rng.random() < 0.2}])
         elif o == "sort" and has_vec:
             ops.append(["sort", {"keys": rng.choice([[], [0], [1, 0]])}])
+        elif o == "sort" and kind in ("supervised_arff_sparse", "supervised_libsvm"):
+            ops.append(["sort", {"keys": []}])        # (sparse contexts: ordered by the feature names each row has)
         elif o == "riffle":
             ops.append(["riffle", {"spacing": 1 + rng.randrange(4), "seed": rng.randrange(1, 9)}])
         elif o == "cycle" and not logged:
@@ -378,7 +380,40 @@ def _gen_look(rng):
     return weighted(rng, [(f"one:{rng.randrange(4)}", 4), ("rev", 2), ("none", 1)])
 
 
-def gen_history(rng, faults=True):
+_HELPER = None
+
+
+def read_in_other_interpreter(env):
+    """Full read of a pickled copy of env in another interpreter whose hash randomisation differs from ours (as a spawned worker's does).
+    Returns the canonical interactions, or None when the environment cannot make the trip (a harness limit, not a finding)."""
+    global _HELPER
+    import base64, subprocess, sys
+    try:
+        blob = base64.b64encode(pickle.dumps(env)).decode()
+    except Exception:
+        return None
+    if _HELPER is None or _HELPER.poll() is not None:
+        envv = dict(os.environ, PYTHONHASHSEED="31337", PYTHONWARNINGS="ignore")
+        _HELPER = subprocess.Popen([sys.executable, os.path.join(os.path.dirname(os.path.abspath(__file__)), "c04_helper.py")],
+                                   stdin=subprocess.PIPE, stdout=subprocess.PIPE, stderr=subprocess.DEVNULL, text=True, env=envv)
+    try:
+        _HELPER.stdin.write(json.dumps({"env": blob}) + "\n")
+        _HELPER.stdin.flush()
+        ans = json.loads(_HELPER.stdout.readline())
+    except Exception:
+        # the helper itself went away (not something the environment did): start a new one next time, skip this read
+        try:
+            _HELPER.kill()
+        except Exception:
+            pass
+        _HELPER = None
+        return None
+    if "err" in ans:
+        return ("err", ans["err"])
+    return ("rows", pickle.loads(base64.b64decode(ans["rows"])))
+
+
+def gen_history(rng, faults=True, far=0.0):
     hist = []
     for _ in range(3 + rng.randrange(9)):
         o = weighted(rng, [("full", 5), ("partial", 6), ("params", 3), ("pickle", 1.5), ("materialize", 0.7), ("cache", 0.7), ("chunk", 0.4), ("save", 0.6), ("gc", 0.5)])
@@ -398,6 +433,9 @@ def gen_history(rng, faults=True):
             hist[-1][1]["look"] = _gen_look(rng)
     if not any(h[0] == "full" and not h[1].get("look") for h in hist):
         hist.append(["full", {}])
+    if rng.random() < far:
+        # the environment travels (pickled) to another interpreter - other hash randomisation, fresh module state - and is read there
+        hist.insert(rng.randrange(len(hist) + 1), ["other_interpreter", {}])
     return hist
 
 
@@ -410,19 +448,21 @@ class C04:
     rule = ("one run = one environment (synthetic / lambda / class-based / supervised from sequences, a caller-owned Source object, CSV / ARFF / LibSVM lines / result-based source "
             "+ 0-5 built-in filters with sampled parameters) and one history of 3-12 operations on that one object: full read, partial read of k "
             "items (a reader may look at every outcome of the reward/feedback functions, at one action's only, or in reverse order) whose close() is delivered now / by dropping the reference / after j later operations / never, params look-up, pickle round "
-            "trip, materialize(), cache(), chunk(), save()+from_save(), forced gc; a Ctrl-C (KeyboardInterrupt) the first time a chosen item of a class-based source is produced; specs whose pristine first read raises are discarded; "
+            "trip, a pickled copy read in a second real interpreter with another hash randomisation (PYTHONHASHSEED; 25 % of the runs on sparse sources, 1 % of the others), materialize(), cache(), chunk(), save()+from_save(), forced gc; a Ctrl-C (KeyboardInterrupt) the first time a chosen item of a class-based source is produced; specs whose pristine first read raises are discarded; "
             "non-trivial = the history contains an abandoned read followed by another read; distinct = digest of (spec, history)")
     assumptions = ["inputs are re-iterable (lists, ListSource); specs whose first read on a fresh twin raises are discarded",
                    "reward / feedback callables are compared by their values on the interaction's actions",
                    "CPython reference counting delivers close() when the last reference is dropped; 'later' and 'never' model PyPy / cycles / a caller keeping the iterator",
-                   "optional packages absent (no torch batches, no numpy)"]
+                   "optional packages absent (no torch batches, no numpy)",
+                   "a read in the second interpreter that RAISES is only counted (there the one-off injected faults fire afresh); its content is compared when it succeeds"]
     real_components = ["coba.environments.Environments and every filter reached by the chain", "SupervisedSimulation, CsvSource, LibSvmSource, LambdaSimulation, "
                        "synthetic simulations, ResultEnvironment", "pipes.Cache / environments.Cache / Chunk", "materialize / save / from_save (real zip file)"]
     stub_components = ["none (single-threaded engine); the scheduler decides when a suspended reader is closed"]
 
     def gen(self, rng, tier, index):
         src = gen_src(rng)
-        cfg = {"src": src, "ops": gen_ops(rng, src, faults=True), "history": gen_history(rng)}
+        sparse = src[0] in ("supervised_arff_sparse", "supervised_libsvm")
+        cfg = {"src": src, "ops": gen_ops(rng, src, faults=True), "history": gen_history(rng, far=0.25 if sparse else 0.01)}
         caches = [i for i, o in enumerate(cfg["ops"]) if o[0] in ("cache", "chunk")]
         if caches and caches[0] < len(cfg["ops"]) - 1 and rng.random() < 0.5 and "interrupt_at" not in cfg["src"][1]:
             # (not together with the Ctrl-C fault of the source: when the sibling's read is the one that is interrupted, the first later read
@@ -499,6 +539,7 @@ class C04:
             abandoned = False
             read_after_abandon = False
             read_objs = set()
+            farerrs = []
             for step, (op, a) in enumerate(cfg["history"]):
                 # deliver delayed closes that are due
                 for it, due in list(pending):
@@ -599,6 +640,18 @@ class C04:
                             live[-1] = c
                         else:
                             live.append(c)
+                    elif op == "other_interpreter":
+                        far = read_in_other_interpreter(e)
+                        if far is None:
+                            out["counters"]["pickle_refused"] = out["counters"].get("pickle_refused", 0) + 1
+                            continue
+                        out["counters"]["fault.read_in_an_interpreter_with_other_hash_randomisation"] = \
+                            out["counters"].get("fault.read_in_an_interpreter_with_other_hash_randomisation", 0) + 1
+                        if far[0] == "err":
+                            out["counters"]["other_interpreter_read_raised"] = out["counters"].get("other_interpreter_read_raised", 0) + 1
+                            farerrs.append(far[1])
+                            continue
+                        self._cmp(far[1], R, label + " (pickled copy read in another interpreter)", vios, cfg)
                     elif op in ("materialize", "cache", "chunk"):
                         import coba as cb
                         was_read = id(e) in read_objs
